@@ -4,8 +4,10 @@
                              reference shapes of Model.v instead)
      S IDENT | SAME | DIFF   the specification: identical configurations / same effective sub-record /
                              different effective sub-records.
-   A configuration is what device::kernelProperties(props) yields on a device created with only a mode:
-   the properties of the case plus "mode" (initialObjectProps) unless the case sets it.  JSON values are
+   A configuration is what device::kernelProperties(props) yields: the kernel properties from occa::settings()
+   (g tokens), overridden by the device's (d tokens), then "mode" (initialObjectProps), overridden by the build's
+   properties (A/1/2 tokens).  Cases keep object-valued properties at one level per configuration, so overriding a
+   whole value is what json operator+ does.  JSON values are
    parsed here (objects: keys sorted bytewise, last binding of a key wins, as std::map does). *)
 let explode s = List.init (String.length s) (String.get s)
 
@@ -116,7 +118,20 @@ let () =
         | m1 :: m2 :: rest ->
           let mode_of m = if m.[0] = 'O' then OpenMP else Serial in
           let name_of m = if m.[0] = 'O' then "OpenMP" else "Serial" in
-          let p1 = ref [("mode", JStr (explode (name_of m1)))] and p2 = ref [("mode", JStr (explode (name_of m2)))] in
+          let p1 = ref [] and p2 = ref [] in
+          (* layers in increasing precedence: settings, device, mode, build *)
+          let layer (c : char) =
+            List.iter (fun t ->
+              if String.length t >= 4 && t.[0] = c && (t.[1] = '1' || t.[1] = '2' || t.[1] = 'A') then
+                match String.index_opt t '=' with
+                | Some e when e >= 2 ->
+                  let path = String.sub t 2 (e - 2) in
+                  let v = parse_json (decode (String.sub t (e + 1) (String.length t - e - 1))) in
+                  if t.[1] = 'A' || t.[1] = '1' then set_prop p1 path v;
+                  if t.[1] = 'A' || t.[1] = '2' then set_prop p2 path v
+                | _ -> ()) rest in
+          layer 'g'; layer 'd';
+          set_prop p1 "mode" (JStr (explode (name_of m1))); set_prop p2 "mode" (JStr (explode (name_of m2)));
           let s1 = ref "k0" and s2 = ref "k0" in
           let paths = ref [] in
           List.iter (fun t ->
@@ -125,6 +140,12 @@ let () =
                 let v = decode (String.sub t 3 (String.length t - 3)) in
                 if t.[1] = '1' || t.[1] = 'A' then s1 := v;
                 if t.[1] = '2' || t.[1] = 'A' then s2 := v
+              end else if t.[0] = 'd' || t.[0] = 'g' then begin
+                match String.index_opt t '=' with
+                | Some e when e >= 2 ->
+                  let path = String.sub t 2 (e - 2) in
+                  if not (List.mem path !paths) then paths := path :: !paths
+                | _ -> ()
               end else match String.index_opt t '=' with
                 | Some e when e >= 1 ->
                   let path = String.sub t 1 (e - 1) in
